@@ -419,8 +419,20 @@ def _m_eval(root, rhs: str, line: str):
         import copy
 
         return copy.deepcopy(_m_get(root, rhs.split(".")[1:], line))
-    if (rhs.startswith("'") and rhs.endswith("'")) or (rhs.startswith('"') and rhs.endswith('"')):
-        return rhs[1:-1]
+    if len(rhs) >= 2 and rhs[0] in "'\"" and rhs[-1] == rhs[0]:
+        # MATLAB quoting: inside '...' an apostrophe is written twice, inside "..." a double quote is written twice;
+        # a lone delimiter ends the literal and what follows is a syntax error
+        q, body, out, i = rhs[0], rhs[1:-1], [], 0
+        while i < len(body):
+            if body[i] == q:
+                if i + 1 < len(body) and body[i + 1] == q:
+                    out.append(q)
+                    i += 2
+                    continue
+                raise MatlabError(f"string literal ends at an unescaped {q} : {line.strip()}")
+            out.append(body[i])
+            i += 1
+        return "".join(out)
     try:
         return int(rhs, 0)
     except ValueError:
